@@ -24,4 +24,4 @@ def run(chk):
     for mod, cls, name, src, what in REPORT_REFS:
         if (cls, name) in (("StrategyBase", "positions"), ("StrategyBase", "outlays")):
             # computed accessors: recomputed from the tree on every read (nothing cached across reads)
-            check_equiv(chk, "C18.R1", mod, cls, name, src, "report-formula", "%s.%s: %s" % (cls, name, what), no_inline=("update", "get_transactions"), limit=14)
+            check_equiv(chk, "C18.R1", mod, cls, name, src, "report-formula", "%s.%s: %s" % (cls, name, what), no_inline=("update", "get_transactions"), limit=14, ignore_refresh=True)
